@@ -28,13 +28,18 @@ def render(st, rng):
     date_style = rng.choice('AB')
     lines = []
     corr = st['corr']
+    # the model's channel names stand for any name the format allows ([A-Z0-9]+): letters, digits inside (H2S, C1C2), long ones
+    alias = {'WAC': rng.choice(['WAC', 'WAC', 'H2S', 'C1C2']), 'BDIA': rng.choice(['BDIA', 'BDIA', 'BIT2DIA', 'X1', '2ND']),
+             'NPEN': rng.choice(['NPEN', 'NC5H12', 'N5']), 'MDIA': rng.choice(['MDIA', 'MUDDENSITYIN', 'MD1A'])}
+    st['_alias'] = alias
+    A = lambda n_: alias.get(n_, n_)
     for i, name in enumerate(st['decls'], 1):
         if corr['kind'] == 'garble_decl' and corr['line'] == i:
-            lines.append(rng.choice(['%s %s' % (name.lower(), 'x y'), name, '%s %s' % (name, UNITS[name]), '?? ' + name + ' a b']))
+            lines.append(rng.choice(['%s %s' % (A(name).lower(), 'x y'), A(name), '%s %s' % (A(name), UNITS[name]), '?? ' + A(name) + ' a b']))
         else:
             d = DESCR[name]
-            lines.append('%s%s%s%s%s' % (name, rng.choice([' ', '\t']), d, sep, UNITS[name]))
-    header = list(st['header']) + (['ZZZZ'] if corr['kind'] == 'undeclared' else [])
+            lines.append('%s%s%s%s%s' % (A(name), rng.choice([' ', '\t']), d, sep, UNITS[name]))
+    header = [A(n_) for n_ in st['header']] + (['ZZZZ'] if corr['kind'] == 'undeclared' else [])
     lines.append(rng.choice([' ', '\t', '  ']).join(header))
     rows = []
     t0 = 1165665017 + rng.randrange(0, 10 ** 8)
@@ -122,16 +127,17 @@ def run(ctx):
             continue
         if got == 'ok':
             # faithful parse of the content
-            hdr = list(st['header'])
+            hdr = [st['_alias'].get(n_, n_) for n_ in st['header']]
             bad = None
             idents = [c.ident for c in fa.channels]
             if idents != hdr:
                 bad = 'channels %r expected %r' % (idents, hdr)
             else:
                 for ci, c in enumerate(fa.channels):
-                    want_desc = ' '.join(DESCR[c.ident].split())
-                    if c.long_name != want_desc or c.units != UNITS[c.ident]:
-                        bad = 'channel %s description/units %r/%r expected %r/%r' % (c.ident, c.long_name, c.units, want_desc, UNITS[c.ident])
+                    mname = st['header'][ci]
+                    want_desc = ' '.join(DESCR[mname].split())
+                    if c.long_name != want_desc or c.units != UNITS[mname]:
+                        bad = 'channel %s description/units %r/%r expected %r/%r' % (c.ident, c.long_name, c.units, want_desc, UNITS[mname])
                         break
                     if len(c.array) != st['nrows']:
                         bad = 'channel %s has %d frames expected %d' % (c.ident, len(c.array), st['nrows'])
